@@ -25,6 +25,23 @@ def deps_union(*avs):
 class ModelBase:
     interp = None
 
+    ASSUME_JUMPS_DESTINATION_CLEAN = True
+
+    def on_attr_assign(self, interp, base, attr, v):
+        # stated assumption (DESIGN C05.R1): the destination column of Jumps.data never holds NOSITE
+        if (self.ASSUME_JUMPS_DESTINATION_CLEAN and base.ty == 'obj' and base.cls == 'gemdat.jumps.Jumps' and attr == 'data'
+                and v is not None and v.cols and 'destination site' in v.cols):
+            c = v.cols['destination site']
+            if c.idx is not None:
+                cols = dict(v.cols)
+                cols['destination site'] = c.w(idx=('SITE', False), assumed_clean=True)
+                v = v.w(cols=cols)
+        if base.ty == 'obj' and base.cls and v is not None:
+            ci = interp.p.classes.get(base.cls)
+            if ci is not None:
+                return self.owned(v, ci, attr)
+        return v
+
     def global_constant(self, v, module, name):
         # the package-wide 'no site' marker
         if name == 'NOSITE':
@@ -382,6 +399,8 @@ class ModelBase:
             name = f'n_{a.axes[0]}'
         elif a.lenname:
             name = a.lenname
+        elif a.ty in ('list', 'tuple') and a.elem is not None and a.elem.ty == 'Species':
+            name = 'n_atoms'
         out = AV(ty='int', lenof=a.only('ty', 'axes', 'idx', 'geo', 'cols', 'maybe_empty', 'symlen', 'store', 'prov'))
         if name:
             out = out.w(mono=Mono.atom(name))
